@@ -1388,6 +1388,24 @@ def template_input(inputfile, dumpfile, flux=False, verbose=False):
     verbose : :class:`bool`, optional
         If ``True``, print lots of extra information.
     """
+    #
+    # RUN2D and RUN1D are set from the input file while the templates are
+    # computed; make sure they are restored even if something fails.
+    #
+    orig = dict([(r, os.environ.get(r)) for r in ('RUN2D', 'RUN1D')])
+    try:
+        return _template_input(inputfile, dumpfile, flux=flux, verbose=verbose)
+    finally:
+        for r in orig:
+            if orig[r] is None:
+                os.environ.pop(r, None)
+            else:
+                os.environ[r] = orig[r]
+
+
+def _template_input(inputfile, dumpfile, flux=False, verbose=False):
+    """The actual work of :func:`template_input`.
+    """
     import pickle
     from astropy.constants import c as cspeed
     from .. import __version__ as pydl_version
